@@ -800,18 +800,160 @@ theorem inv_measureAllLoop {b : Option String} {cs : List Nat} {q : Nat} {s s' :
     obtain ⟨s1, h1, h⟩ := Res.bind_eq_ok.mp h
     exact ih (inv_setMeasurement hinv h1) h
 
+/-! ## Multi-qubit block gates (the trait's default drawing, `add_block_gate`) -/
+
+def ghostWrites (d : String) : Nat → Nat → List (Nat × Sym)
+  | _, 0 => []
+  | b, n+1 => (b, .ghost d) :: ghostWrites d (b+1) n
+
+/-- What `drawRange` writes. -/
+def drawWrites (f l : Nat) (d : String) (q : Option Int) : List (Nat × Sym) :=
+  if l = f then [(f, .gate d q)] else (f, .multigate (l - f) d q) :: ghostWrites d (f + 1) (l - f)
+
+def restWrites (d : String) : List (Nat × Nat) → Nat → List (Nat × Sym)
+  | [], _ => []
+  | (f, l) :: more, prev => drawWrites f l d (some ((prev : Int) - (f : Int))) ++ restWrites d more l
+
+/-- What `add_block_gate` writes: a box (or multigate on ghosts) per run of qubits, the later ones linked
+upwards by `\\qwx`. -/
+def blockWrites (d : String) (qbits : List Nat) : List (Nat × Sym) :=
+  match getRanges qbits with
+  | some ((f, l) :: more) => drawWrites f l d none ++ restWrites d more l
+  | _ => []
+
+/-- Every line of a symbol of `ws` ends on a partner symbol of `ws`. -/
+def closedB (ws : List (Nat × Sym)) : Bool :=
+  ws.all fun p => p.2.lines.all fun ln =>
+    ws.any fun q => decide ((p.1 : Int) + ln.1 = (q.1 : Int)) && Sym.partnerOk ln.2 q.2
+
+/-- Placements of a block gate on `n ≥ 2` qubits covered by the theorems: a DECIDABLE check of what
+`get_ranges` yields for the operands — at least one run; the written rows are distinct, lie between two
+operands, are exactly the operands; every `\\qwx` link ends on a part of the box. (It holds for every list
+of distinct qubits: kernel-checked for all placements on up to 5 qubits, `Props.C13.block_placements_small`.) -/
+def blockOk (d : String) (n : Nat) (bits : List Nat) : Bool :=
+  decide (2 ≤ n) && decide (bits.length = n) &&
+  (match getRanges bits with | some (_ :: _) => true | _ => false) &&
+  decide (((blockWrites d bits).map (·.1)).Nodup) &&
+  ((blockWrites d bits).all fun p => bits.any (· ≤ p.1) && bits.any (p.1 ≤ ·)) &&
+  closedB (blockWrites d bits) &&
+  (bits.all fun b => (blockWrites d bits).any (·.1 == b)) &&
+  ((blockWrites d bits).all fun p => bits.contains p.1)
+
+theorem ghosts_inRange {d : String} : ∀ (n b : Nat) (s s' : St), s.ranges ≠ [] → s.rcols ≠ [] →
+    ghosts d b n s = .ok s' →
+    Wrote s s' (ghostWrites d b n) ∧ s'.ranges = s.ranges ∧ s'.controlled = s.controlled
+  | 0, b, s, s', _, hc, h => by
+    simp only [ghosts] at h; injection h with h; subst h
+    exact ⟨wrote_nil_of hc rfl rfl rfl rfl rfl (fun _ h => h), rfl, rfl⟩
+  | n+1, b, s, s', hr, hc, h => by
+    simp only [ghosts] at h
+    obtain ⟨s1, h1, h2⟩ := Res.bind_eq_ok.mp h
+    obtain ⟨hw1, hr1, hc1⟩ := setField_inRange hr h1
+    obtain ⟨hw2, hr2, hc2⟩ := ghosts_inRange n (b+1) s1 s' (by rw [hr1]; exact hr) hw1.rcols_ne h2
+    exact ⟨by simpa [ghostWrites] using hw1.trans hw2, hr2.trans hr1, hc2.trans hc1⟩
+
+theorem drawRange_inRange {f l : Nat} {d : String} {q : Option Int} {s s' : St} (hr : s.ranges ≠ [])
+    (hc : s.rcols ≠ []) (h : drawRange f l d q s = .ok s') :
+    Wrote s s' (drawWrites f l d q) ∧ s'.ranges = s.ranges ∧ s'.controlled = s.controlled := by
+  unfold drawRange at h
+  unfold drawWrites
+  split at h
+  · rename_i he
+    rw [if_pos he]
+    exact setField_inRange hr h
+  · rename_i he
+    rw [if_neg he]
+    obtain ⟨s1, h1, h2⟩ := Res.bind_eq_ok.mp h
+    obtain ⟨hw1, hr1, hc1⟩ := setField_inRange hr h1
+    obtain ⟨hw2, hr2, hc2⟩ := ghosts_inRange _ _ s1 s' (by rw [hr1]; exact hr) hw1.rcols_ne h2
+    exact ⟨by simpa using hw1.trans hw2, hr2.trans hr1, hc2.trans hc1⟩
+
+theorem blockRest_inRange {d : String} : ∀ (rs : List (Nat × Nat)) (prev : Nat) (s s' : St), s.ranges ≠ [] →
+    s.rcols ≠ [] → blockRest d rs prev s = .ok s' →
+    Wrote s s' (restWrites d rs prev) ∧ s'.ranges = s.ranges ∧ s'.controlled = s.controlled
+  | [], _, s, s', _, hc, h => by
+    simp only [blockRest] at h; injection h with h; subst h
+    exact ⟨wrote_nil_of hc rfl rfl rfl rfl rfl (fun _ h => h), rfl, rfl⟩
+  | (f, l) :: more, prev, s, s', hr, hc, h => by
+    simp only [blockRest] at h
+    obtain ⟨s1, h1, h2⟩ := Res.bind_eq_ok.mp h
+    obtain ⟨hw1, hr1, hc1⟩ := drawRange_inRange hr hc h1
+    obtain ⟨hw2, hr2, hc2⟩ := blockRest_inRange more l s1 s' (by rw [hr1]; exact hr) hw1.rcols_ne h2
+    exact ⟨by simpa [restWrites] using hw1.trans hw2, hr2.trans hr1, hc2.trans hc1⟩
+
+/-- The shape of `latex` of a block gate at a covered placement. -/
+theorem blockOk_latex {d : String} {n : Nat} {bits : List Nat} (hok : blockOk d n bits = true) (s : St) :
+    ∃ f l more, getRanges bits = some ((f, l) :: more) ∧ bits ≠ [] ∧
+      blockWrites d bits = drawWrites f l d none ++ restWrites d more l ∧
+      latex (.box d n) bits s = (startRangeOp bits none s >>== fun s1 =>
+        (fun s1 => drawRange f l d none s1 >>== fun s2 => blockRest d more l s2) s1 >>== endRangeOp) := by
+  simp only [blockOk, Bool.and_eq_true, decide_eq_true_eq] at hok
+  obtain ⟨⟨⟨⟨⟨⟨⟨hn, hlen⟩, hgr⟩, _⟩, _⟩, _⟩, _⟩, _⟩ := hok
+  cases hg : getRanges bits with
+  | none => rw [hg] at hgr; cases hgr
+  | some rs =>
+    cases rs with
+    | nil => rw [hg] at hgr; cases hgr
+    | cons x more =>
+      obtain ⟨f, l⟩ := x
+      refine ⟨f, l, more, rfl, ?_, ?_, ?_⟩
+      · intro he; subst he; simp at hlen; omega
+      · simp only [blockWrites, hg]
+      · simp only [latex, checkNrBits, Gate.nbits, hlen, ne_eq, not_true_eq_false, if_false, Res.bind_ok,
+          addBlockGate, hg]
+        simp [bind_assoc]
+
+/-- The facts `blockOk` has checked, as propositions. -/
+theorem blockOk_facts {d : String} {n : Nat} {bits : List Nat} (hok : blockOk d n bits = true) :
+    ((blockWrites d bits).map (·.1)).Nodup ∧
+    (∀ p ∈ blockWrites d bits, ∃ lo ∈ bits, ∃ hi ∈ bits, lo ≤ p.1 ∧ p.1 ≤ hi) ∧
+    (∀ p ∈ blockWrites d bits, ∀ ln ∈ p.2.lines,
+      ∃ q ∈ blockWrites d bits, (p.1 : Int) + ln.1 = (q.1 : Int) ∧ Sym.partnerOk ln.2 q.2 = true) ∧
+    (∀ b ∈ bits, ∃ p ∈ blockWrites d bits, p.1 = b) ∧ (∀ p ∈ blockWrites d bits, p.1 ∈ bits) := by
+  simp only [blockOk, Bool.and_eq_true, decide_eq_true_eq, List.all_eq_true, List.any_eq_true, closedB,
+    beq_iff_eq, List.contains_iff_mem] at hok
+  obtain ⟨⟨⟨⟨⟨⟨⟨_, _⟩, _⟩, hnd⟩, hin⟩, hcl⟩, hcov⟩, hsub⟩ := hok
+  refine ⟨hnd, ?_, ?_, ?_, hsub⟩
+  · intro p hp
+    obtain ⟨⟨lo, hlo, h1⟩, ⟨hi, hhi, h2⟩⟩ := hin p hp
+    exact ⟨lo, hlo, hi, hhi, h1, h2⟩
+  · intro p hp ln hln
+    obtain ⟨q, hq, h1, h2⟩ := hcl p hp ln hln
+    exact ⟨q, hq, h1, h2⟩
+  · intro b hb
+    obtain ⟨p, hp, h1⟩ := hcov b hb
+    exact ⟨p, hp, h1⟩
+
+/-- A block gate at a covered placement, outside a range, keeps the invariant. -/
+theorem inv_block {d : String} {n : Nat} {bits : List Nat} {s s' : St} (hinv : Inv s)
+    (hok : blockOk d n bits = true) (h : latex (.box d n) bits s = .ok s') : Inv s' := by
+  obtain ⟨f, l, more, _, hne, hws, he⟩ := blockOk_latex hok s
+  obtain ⟨hnd, hrows, hclosed, _, _⟩ := blockOk_facts hok
+  rw [he] at h
+  obtain ⟨sx, hx, _⟩ := Res.bind_eq_ok.mp h
+  obtain ⟨s0, _, hw, hr, _, hfree⟩ := range_gate (ws := blockWrites d bits) hne (ready_top hinv)
+    (by
+      intro s1 s2 hrn hcn _ _ hb
+      obtain ⟨sa, ha, hb2⟩ := Res.bind_eq_ok.mp hb
+      obtain ⟨hw1, hr1, hc1⟩ := drawRange_inRange hrn hcn ha
+      obtain ⟨hw2, hr2, hc2⟩ := blockRest_inRange more l sa s2 (by rw [hr1]; exact hrn) hw1.rcols_ne hb2
+      exact ⟨by rw [hws]; exact hw1.trans hw2, hr2.trans hr1, hc2.trans hc1⟩)
+    hrows h
+  obtain ⟨hi0, hf⟩ := hfree hinv.noRange
+  exact inv_of_wrote hi0 hw (by rw [hr]; exact hinv.noRange) hf hnd hclosed
+
 /-! ## Gates outside a range -/
 
 mutual
 /-- Placements covered by the theorem: one-column gates (1-qubit boxes, X, Z, Swap, controlled
-versions with the control outside the span of the targets) on distinct qubits; I; Kron, Composite and
-Loop of such. -/
+versions with the control outside the span of the targets) on distinct qubits; multi-qubit block gates
+at a placement satisfying `blockOk` (not under a control or condition); I; Kron, Composite and Loop of such. -/
 def topOk : Gate → List Nat → Bool
   | .i, _ => true
   | .kron a b, bits => topOk a (bits.take a.nbits) && topOk b (bits.drop a.nbits)
   | .comp _ _ ops, bits => topOkSubs ops bits
   | .loop _ body, bits => topOk body bits
-  | .box l n, bits => simple (.box l n) && goodPlace (.box l n) bits && decide bits.Nodup
+  | .box l n, bits => (simple (.box l n) && goodPlace (.box l n) bits && decide bits.Nodup) || blockOk l n bits
   | .x, bits => goodPlace .x bits
   | .z, bits => goodPlace .z bits
   | .swap, bits => goodPlace .swap bits && decide bits.Nodup
@@ -828,8 +970,10 @@ mutual
 theorem inv_latex : ∀ (g : Gate) (bits : List Nat) (s s' : St), Inv s → s.expand = true → topOk g bits = true →
     latex g bits s = .ok s' → Inv s'
   | .box l n, bits, s, s', hinv, _, ht, h => by
-    simp only [topOk, Bool.and_eq_true, decide_eq_true_eq] at ht
-    exact inv_simple hinv ht.1.1 ht.1.2 ht.2 h
+    simp only [topOk, Bool.or_eq_true, Bool.and_eq_true, decide_eq_true_eq] at ht
+    rcases ht with ht | ht
+    · exact inv_simple hinv ht.1.1 ht.1.2 ht.2 h
+    · exact inv_block hinv ht h
   | .x, bits, s, s', hinv, _, ht, h => by
     simp only [topOk] at ht
     have hn : bits.Nodup := by
